@@ -75,7 +75,7 @@ def Wtok(W, mnl):
 
 def correspond(ctx):
     cvxopt = vlib.use_build(ctx.build)
-    from cvxopt import matrix, misc_solvers, blas
+    from cvxopt import matrix, misc_solvers, blas, lapack
     import cvxopt.misc as misc_c
     misc_py = load_python_misc(cvxopt)
     assert misc_c.scale is misc_solvers.scale and misc_py.scale is not misc_solvers.scale
@@ -161,6 +161,37 @@ def correspond(ctx):
                     mins.append(z[o] - math.sqrt(sum(a * a for a in z[o + 1:o + m]))); o += m
                 if abs(min(mins)) > 1e-9:
                     ctx.violation('c08:max-step:' + name, 'x + max_step(x) e is not on the boundary of the cone (%s implementation)' % name, {'dims': d})
+            # max_step with 's' blocks (orders 0, 1 and larger), with and without the eigenvalue decomposition: t puts x + t e on the boundary,
+            # sigma holds the eigenvalues and the 's' blocks of x are overwritten with orthonormal eigenvectors: Q diag(sigma) Q' = sym(x_k)
+            if d['s'] and N:
+                for want_sigma in (False, True):
+                    X = matrix(xr, (N, 1), 'd'); ns = sum(d['s'])
+                    sig = matrix(0.0, (ns, 1)) if want_sigma else None
+                    t = M.max_step(X, d, mnl, sig) if want_sigma else M.max_step(X, d, mnl); ident += 1
+                    o = mnl + d['l']; margins = [a for a in xr[:o]]
+                    for m_ in d['q']:
+                        margins.append(xr[o] - math.sqrt(sum(a * a for a in xr[o + 1:o + m_]))); o += m_
+                    os_ = 0
+                    for k in d['s']:
+                        S_ = matrix(0.0, (k, k))
+                        for j in range(k):
+                            for i in range(j, k): S_[i, j] = xr[o + j * k + i]; S_[j, i] = xr[o + j * k + i]
+                        if k:
+                            w_ = matrix(0.0, (k, 1)); lapack.syev(+S_, w_); margins.append(min(w_))
+                            if want_sigma:
+                                Q = matrix(list(X[o:o + k * k]), (k, k)); sg = list(sig[os_:os_ + k])
+                                R = Q * matrix([[sg[c] if r == c else 0.0 for r in range(k)] for c in range(k)]) * Q.T
+                                e1 = max(abs(R[i] - S_[i]) for i in range(k * k)); QtQ = Q.T * Q
+                                e2 = max(abs(QtQ[i, j] - (1.0 if i == j else 0.0)) for i in range(k) for j in range(k))
+                                e3 = max(abs(a - b) for a, b in zip(sorted(sg), sorted(w_)))
+                                if max(e1, e2, e3) > 1e-8 * (1 + max(abs(a) for a in S_)):
+                                    ctx.violation('c08:max-step-eig:' + name, "max_step(x, dims, mnl, sigma): an 's' block of order %d is not returned as eigenvalues and orthonormal "
+                                                  'eigenvectors of the block (|Q S Q^T - A| = %.2e, |Q^T Q - I| = %.2e, eigenvalue error %.2e; %s implementation)' % (k, e1, e2, e3, name),
+                                                  {'dims': d, 'mnl': mnl, 'order': k})
+                        o += k * k; os_ += k
+                    if margins and abs(t + min(margins)) > 1e-8 * (1 + abs(t)):
+                        ctx.violation('c08:max-step:' + name, "x + max_step(x) e is not on the boundary of the cone with 's' blocks (t = %r, expected %r; sigma %s; %s implementation)"
+                                      % (t, -min(margins), 'given' if want_sigma else 'omitted', name), {'dims': d, 'mnl': mnl})
     out = vlib.drive('C08', lines)
     dis = 0
     for l, o, m, name in zip(lines, obs, out, meta):
